@@ -238,7 +238,19 @@ def run_impl(pb, lines, timeout_ms=3000):
             # process died without reporting: crash (e.g. stack overflow) on case i
             res.append({'r': 'crash', 'code': r.returncode})
             i += 1
-    return res[:len(lines)]
+    res = res[:len(lines)]
+    # a watchdog verdict is confirmed on its own with a generous limit (the machine may be busy)
+    for k, x in enumerate(res):
+        if x.get('r') == 'hang' and timeout_ms < 20000:
+            r = subprocess.run([pb.driver, 'k3', '20000'], input=lines[k] + '\n', stdout=subprocess.PIPE,
+                               stderr=subprocess.PIPE, text=True, timeout=120)
+            outs = [l for l in r.stdout.split('\n') if l.strip()]
+            if outs:
+                try:
+                    res[k] = json.loads(outs[0])
+                except Exception:
+                    pass
+    return res
 
 
 def run_model(pb, lines):
